@@ -299,14 +299,57 @@ fn output_result_xml<T: serde::Serialize>(result: T) -> Result<()> {
     // format. The function takes a mutable reference to the XML writer, an
     // optional key as a string slice, and a reference to the JSON value to be
     // converted.
+    // Whether a key (they can come from the server, e.g. rule names) can be used as an XML element name.
+    fn is_xml_name(name: &str) -> bool {
+        let start = |c: char| c == '_' || c.is_alphabetic();
+        let rest = |c: char| c == '_' || c == '-' || c == '.' || c.is_alphanumeric();
+        let mut chars = name.chars();
+        chars.next().is_some_and(start) && chars.all(rest) && !name.to_ascii_lowercase().starts_with("xml")
+    }
+
+    // Escape text (or an attribute value): markup characters, and the control characters XML 1.1 only
+    // allows as character references.
+    fn escape_xml(text: &str) -> String {
+        let mut escaped = String::with_capacity(text.len());
+        for c in text.chars() {
+            match c {
+                '<' => escaped.push_str("&lt;"),
+                '>' => escaped.push_str("&gt;"),
+                '&' => escaped.push_str("&amp;"),
+                '"' => escaped.push_str("&quot;"),
+                '\'' => escaped.push_str("&apos;"),
+                '\u{1}' ..= '\u{1f}' | '\u{7f}' ..= '\u{9f}' => escaped.push_str(&format!("&#x{:X};", c as u32)),
+                // Not representable in XML at all
+                '\u{0}' | '\u{fffe}' | '\u{ffff}' => escaped.push('\u{fffd}'),
+                _ => escaped.push(c),
+            }
+        }
+        escaped
+    }
+
+    // The start tag for a key: the key itself when it is a valid element name, else <entry key="...">.
+    fn start_tag(key: &str) -> (BytesStart<'static>, String) {
+        if is_xml_name(key) {
+            (BytesStart::new(key.to_string()), key.to_string())
+        } else {
+            let mut start = BytesStart::new("entry");
+            start.push_attribute(quick_xml::events::attributes::Attribute {
+                key: quick_xml::name::QName(b"key"),
+                value: std::borrow::Cow::Owned(escape_xml(key).into_bytes()),
+            });
+            (start, "entry".to_string())
+        }
+    }
+
     fn json_to_xml<W: std::io::Write>(writer: &mut Writer<W>, key: Option<&str>, value: &Value) -> Result<()> {
         match value {
             // If the JSON value is an object, iterate through its properties,
             // creating XML elements with corresponding keys and values.
             Value::Object(obj) => {
-                if let Some(key) = key {
+                let tag = key.map(start_tag);
+                if let Some((start, _)) = &tag {
                     // Start an XML element for the object.
-                    writer.write_event(Event::Start(BytesStart::new(key)))?;
+                    writer.write_event(Event::Start(start.clone()))?;
                 }
 
                 for (k, v) in obj {
@@ -314,9 +357,9 @@ fn output_result_xml<T: serde::Serialize>(result: T) -> Result<()> {
                     json_to_xml(writer, Some(k), v)?;
                 }
 
-                if let Some(key) = key {
+                if let Some((_, name)) = tag {
                     // Close the XML element for the object.
-                    writer.write_event(Event::End(BytesEnd::new(key)))?;
+                    writer.write_event(Event::End(BytesEnd::new(name)))?;
                 }
             }
 
@@ -332,7 +375,7 @@ fn output_result_xml<T: serde::Serialize>(result: T) -> Result<()> {
             // If the JSON value is null, create an empty XML element.
             Value::Null => {
                 if let Some(key) = key {
-                    writer.write_event(Event::Empty(BytesStart::new(key)))?;
+                    writer.write_event(Event::Empty(start_tag(key).0))?;
                 }
             }
 
@@ -340,9 +383,10 @@ fn output_result_xml<T: serde::Serialize>(result: T) -> Result<()> {
             // convert the value to a string and create an XML element with the text content.
             // Note: We handle null strings here as well, as they are treated as a string type.
             _ => {
-                if let Some(key) = key {
+                let tag = key.map(start_tag);
+                if let Some((start, _)) = &tag {
                     // Start the XML element with the given key.
-                    writer.write_event(Event::Start(BytesStart::new(key)))?;
+                    writer.write_event(Event::Start(start.clone()))?;
                 }
 
                 // Convert the JSON value to a string, trimming quotes for non-string values.
@@ -352,11 +396,11 @@ fn output_result_xml<T: serde::Serialize>(result: T) -> Result<()> {
                 };
 
                 // Create a text node with the converted string value.
-                writer.write_event(Event::Text(BytesText::new(&text_string)))?;
+                writer.write_event(Event::Text(BytesText::from_escaped(escape_xml(&text_string))))?;
 
-                if let Some(key) = key {
+                if let Some((_, name)) = tag {
                     // Close the XML element.
-                    writer.write_event(Event::End(BytesEnd::new(key)))?;
+                    writer.write_event(Event::End(BytesEnd::new(name)))?;
                 }
             }
         }
